@@ -174,6 +174,7 @@ structure Skeleton where
   seFirstOnly                : Bool
   seBroadcasts               : Bool
   seStoreUnderLock           : Bool
+  seOnlyOwnLock              : Bool  -- setErr takes no lock but its own condition variable's and has no channel operation, select or wait: it waits for nobody (in particular not for a lock that application code may hold)
   linkWaitsOnCond             : Bool  -- Link: lock; read; if nil Wait; read; unlock; return
   watcherCallsSetErr         : Bool
   /- ---------------- registry / hooks ---------------- -/
